@@ -627,6 +627,14 @@ def check_site(h, res, site, tag):
     if not (site.span[0] <= rep["offset"] <= site.span[1]):
         res.add(classify_offset(site, rep), detail, wit)
         return
+    # the error's own classification helpers name the rule too
+    if not unwrap(rep["err"])[1] and "ie" in rep:
+        want_ie = site.rule == "dedent-unknown-level"
+        want_te = site.rule in ("tab-space-ambiguity", "tab-after-space")
+        if rep["te"] != want_te or (want_ie and not rep["ie"]) or (rep["ie"] and not want_ie and "Indent" not in rep["err"]):
+            res.add("unlisted:is_indentation_error/is_tab_error-disagree-with-the-rule", dict(detail, is_indentation_error=rep["ie"], is_tab_error=rep["te"]), wit)
+            return
+        res.counters["error helpers agree (is_indentation_error=%s is_tab_error=%s)" % (rep["ie"], rep["te"])] += 1
     if unwrap(rep["err"])[1]:
         res.counters["rule enforced inside an f-string field (wrapped error)"] += 1
     res.counters["rule-enforced:" + site.rule] += 1
